@@ -31,6 +31,15 @@ type netConfig struct {
 	Compression bool      `json:"compression"`
 	Procs       int       `json:"gomaxprocs"`
 	Sched       schedPlan `json:"schedule_perturbation"`
+	// Pauses: the connections go through a proxy that suspends forwarding in one direction for a while
+	// (back-pressure: socket buffers and then the sender's write queue fill up); nothing is lost or reordered
+	Pauses []pauseSpec `json:"forwarding_pauses,omitempty"`
+}
+
+type pauseSpec struct {
+	Dir     int `json:"direction"` // 0 client->server, 1 server->client
+	AfterMs int `json:"after_ms"`
+	ForMs   int `json:"for_ms"`
 }
 
 func drawConfig(rt *rapid.T) netConfig {
